@@ -187,6 +187,7 @@ def call_setup(b):
     b.m, b.M = m, M
     me = Obj('self', min_length=m, max_length=M)
     me._lenient = True
+    me._class_source = (ADAPTERS_PY, 'gclmulchunker')          # helpers extracted from __call__ are the real methods, inlined
 
     def on_unknown(interp, st, name):
         # "never by earlier calls" / "different keys lead to different boundaries": a call must not depend on
